@@ -277,10 +277,15 @@ def run(ctx, idx):
     d, r = res["NormalizeCat"]
     sel = [x for x in r.selstores if x[1] is not None and isinstance(x[3], Scal)]
     con = "%s.execute::category-equality" % d.key
-    if not sel:
+    us = [f for name_ in CONVERSIONS for f in res[name_][1].findings if f[0] == "unsorted-search"]
+    if us:
+        ctx.violate("C08.k", con, d.module.rel, us[0][1], us[0][2] + " - the documented lookup does not depend on the order of the table")
+    elif not sel:
         raise AnalysisError("C08.k: no store selected by a comparison of the field with the raw values found in NormalizeCat")
     badsel = [x for x in sel if x[1][1] != "Eq"]
-    if badsel:
+    if us:
+        pass
+    elif badsel:
         ctx.violate("C08.k", con, d.module.rel, badsel[0][0].lineno, "cells are assigned to a table entry by `%s`, a %s test rather than equality: one cell can match several entries (the later entry wins, so the result depends on the table's order) and cells of an unlisted category next to a listed one get its value instead of the default" % (K.src(badsel[0][0])[:60], badsel[0][1][1]))
     else:
         ctx.hold("C08.k", con, d.module.rel, sel[0][0].lineno, "cells selected by equality with the raw value")
@@ -349,6 +354,23 @@ def run(ctx, idx):
             con = "%s.execute::positions-removed-in-sequence" % d.key
             ctx.ob("C08.h", con, d.module.rel, lp.lineno, not stale, "positions are removed from the back, or relative to the end" if not stale else
                    "positions %s are removed one after another in ascending order: once position %d is gone, position %d names the element after the one meant (when both ends collapse the highest control point itself is dropped and the maximum maps to the wrong normal value)" % (positions, positions[0], positions[-1]))
+    mean_to_mid_points(ctx, idx, res, "C08.h")
+    ctx.rule("C08.l", "A conversion only reads its value lists: RawValues / NormalValues / FuzzyValues / ZScoreValues are copied before a control point is dropped or replaced, so the same list converts the next field with the same curve.")
+    for name in CONVERSIONS:
+        R.leaves_arguments_alone(ctx, "C08.l", *res[name])
+    n = 0
+    for d, r in R.results(idx).values():
+        if d.is_fuzzy is True and d.is_data():
+            for k, s, v in R.ret_sites(d, r):
+                if isinstance(v, Arr):
+                    n += 1
+                    ctx.ob("C08.f", R.ret_key(d, k) + "::float", d.module.rel, R.line_of(s), v.dt == F_,
+                           "fuzzy result is floating" if v.dt == F_ else "a fuzzy producer may return a non-floating array (dtype kinds %s): consumers that accumulate in place would fail" % sorted(v.dt))
+    _c08_tail(ctx, idx, res, n)
+
+
+def mean_to_mid_points(ctx, idx, res, rule):
+    """the five control points NormalizeMeanToMid hands to the curve: min(all), three means, max(all)"""
     d, r = res["NormalizeMeanToMid"]
     con = "%s.execute::control-points" % d.key
     sup = [x for x in r.super_calls if x[0].func.attr == "execute" and x[1] is not None]
@@ -360,14 +382,14 @@ def run(ctx, idx):
             if isinstance(arg_, Lst) and arg_.what == "zip" and len(arg_.zipped) == 2 and isinstance(arg_.zipped[0], Lst) and arg_.zipped[0].items is not None:
                 raw_direct = (node_, arg_.zipped[0])
     if not sup and raw_direct is None:
-        ctx.violate("C08.h", con, d.module.rel, d.execute.node.lineno, "NormalizeMeanToMid no longer delegates to NormalizeCurve with computed RawValues")
+        ctx.violate(rule, con, d.module.rel, d.execute.node.lineno, "NormalizeMeanToMid no longer delegates to NormalizeCurve with computed RawValues")
     else:
         raw = sup[0][1].d.get("RawValues") if sup else raw_direct[1]
         if not sup:
             sup = [(raw_direct[0],)]
         items = raw.items if isinstance(raw, Lst) and raw.items is not None else None
         if items is None or len(items) != 5:
-            raise AnalysisError("C08.h: RawValues passed to NormalizeCurve is not a five-element list of statistics")
+            raise AnalysisError("%s: RawValues passed to NormalizeCurve is not a five-element list of statistics" % rule)
         syms = [getattr(x, "sym", None) for x in items]
         probs = []
         if syms[0] != "stat:min(all)":
@@ -376,13 +398,8 @@ def run(ctx, idx):
             probs.append("the highest control point is %s, not the maximum of the whole input" % (syms[4] or "not a data statistic"))
         if not all(sy and sy.startswith("stat:mean(") for sy in syms[1:4]):
             probs.append("the inner control points are %s, not means" % syms[1:4])
-        ctx.ob("C08.h", con, d.module.rel, sup[0][0].lineno, not probs, "control points: min(all), mean, mean, mean, max(all)" if not probs else "; ".join(probs) + " (IgnoreZeros is documented to affect only the means)")
-    n = 0
-    for d, r in R.results(idx).values():
-        if d.is_fuzzy is True and d.is_data():
-            for k, s, v in R.ret_sites(d, r):
-                if isinstance(v, Arr):
-                    n += 1
-                    ctx.ob("C08.f", R.ret_key(d, k) + "::float", d.module.rel, R.line_of(s), v.dt == F_,
-                           "fuzzy result is floating" if v.dt == F_ else "a fuzzy producer may return a non-floating array (dtype kinds %s): consumers that accumulate in place would fail" % sorted(v.dt))
+        ctx.ob(rule, con, d.module.rel, sup[0][0].lineno, not probs, "control points: min(all), mean, mean, mean, max(all)" if not probs else "; ".join(probs) + " (IgnoreZeros is documented to affect only the means)")
+
+
+def _c08_tail(ctx, idx, res, n):
     ctx.floor("C08.f", "fuzzy producer returns", n, 14)
